@@ -323,6 +323,11 @@ pub fn walk(
         match prop {
             Prop::C01 | Prop::C02 => {
                 check_generation(&c.p, &fresh, MoveGenerationMode::AllMoves, h, prop, &o_fen, acc);
+                if prop == Prop::C01 {
+                    // the position as the `position ... moves ...` replay holds it: a position
+                    // reached by a legal move sequence through the engine's own interface
+                    check_generation(&c.p, &c.txt, MoveGenerationMode::AllMoves, h, prop, &o_txt, acc);
+                }
             }
             Prop::C05 => {
                 for (b, what, o) in [(&c.gen, "generator chain", &o_gen), (&c.txt, "text applier", &o_txt), (&fresh, "FEN loader", &o_fen)] {
@@ -476,6 +481,9 @@ pub fn walk(
             }
         };
         c.txt = if txt_res.is_ok() && !resync && fields_of(&txt) == want && txt.zobrist_key == want_key {
+            txt
+        } else if lenient && txt_res.is_ok() && { let f = fields_of(&txt); f.sq == want.sq && f.stm == want.stm && f.ring_ok } {
+            acc.count("text_carrier_followed_despite_state_mismatch", 1);
             txt
         } else {
             acc.count("text_carrier_resyncs", 1);
